@@ -52,47 +52,3 @@ Example C03_vector :
   spec_phrase_nfkd (nth 0 langs (Build_lang [] [] [] false false false false [])) s 0 =
   [x72; x61; x76; x65; x6e; x20; x74; x61; x69; x6c; x20; x73; x77; x65; x61; x72; x20; x69; x6e; x66; x61; x6e; x74; x20; x67; x72; x69; x65; x66; x20; x61; x73; x73; x69; x73; x74; x20; x72; x65; x67; x75; x6c; x61; x72; x20; x6c; x61; x6d; x70; x20; x64; x75; x63; x6b; x20; x76; x61; x6c; x69; x64; x20; x73; x6f; x6d; x65; x6f; x6e; x65; x20; x6c; x69; x74; x74; x6c; x65; x20; x68; x61; x72; x73; x68; x20; x70; x75; x70; x70; x79; x20; x61; x69; x72; x70; x6f; x72; x74; x20; x6c; x61; x6e; x67; x75; x61; x67; x65].
 Proof. vm_compute. reflexivity. Qed.
-
-(* ---- the tie to the code: polyseed_data_to_poly as TRANSLATED from /repo's current gf.c on this run
-   (Gen/CFuns.v; the chunk loops unrolled by constant propagation, the three asserts decided at
-   translation time) writes the published data words into coeff[1..15] for EVERY canonical struct *)
-Theorem C03_code_tie : forall d poly, Canon d -> length poly = 16%nat ->
-  CFuns.polyseed_data_to_poly (Z.of_N (d_birthday d)) (Z.of_N (d_features d)) (map Z.of_N (d_secret d)) (map Z.of_N poly)
-  = map Z.of_N (hd 0 poly :: spec_data_words (abs_data d)).
-Proof. exact tie_data_to_poly. Qed.
-Print Assumptions C03_code_tie.
-
-(* ---- the tie to the code: src/polyseed.c as TRANSLATED on this run (Gen/CApi.v) ---- *)
-From Coq Require Import String.
-From PS Require Import Base GFDefs PackDefs StoreDefs MiscDefs StrDefs LangDefs ApiDefs GFProofs PackProofs StoreProofs CTieBase CTieLang CTiePhrase CTiePhraseEv CTieSplit CTieApi CTieDecode CTieEncode.
-From PS.Gen Require Import Consts PrivConsts Langs.
-From PS.Gen Require CFuns.
-From PS.Gen Require CApi.
-
-(* polyseed_encode as translated: coefficient 0 is the stored check value, coefficient 1 carries the coin, word i of the output is word number coefficient i of the list *)
-Theorem C03_code_tie_api_encode :
-  forall (sgn : bool) (st : state) (fuel li : nat) (L : lang),
-         nth_error langs li = Some L ->
-         (forall j : nat, (Datatypes.length (nth j (l_words L) []) + 1 <= fuel)%nat) ->
-         (Datatypes.length (l_separator L) + 1 <= fuel)%nat ->
-         (forall x : bytes, snd (dp_nfc (st_deps st) x) < 2 ^ 64) ->
-         forall (h : N) (d : data) (coin : N) (out0 : list Z),
-         heap_get (st_heap st) h = Some d ->
-         Canon d ->
-         d_checksum d < 2048 ->
-         coin < 2048 ->
-         (1 <= Datatypes.length out0)%nat ->
-         match step sgn langs st (OpEncode h li coin) with
-         | (st', OutStr o nn, evs) =>
-             exists (cevs : list CApi.cev) (rest : list Z),
-               CApi.polyseed_encode fuel sgn (znfc (st_deps st))
-                 (fun _ i : Z => zs (nth (Z.to_nat i) (l_words L) [])) (fun _ : Z => zs (l_separator L))
-                 (fun _ : Z => if l_compose L then 1%Z else 0%Z) (Z.of_N (d_birthday d))
-                 (Z.of_N (d_features d)) (map Z.of_N (d_secret d)) (Z.of_N (d_checksum d)) 
-                 (Z.of_nat li) (Z.of_N coin) out0 = Some (cevs, zs o ++ 0%Z :: rest, Z.of_N nn) /\
-               evs_of (st_deps st) cevs = evs /\ st' = st
-         | (st', OutFault, _) | (st', OutUnit, _) | (st', OutNum _, _) | (st', OutStatus _ _ _, _) |
-           (st', OutBytes _, _) => True
-         end.
-Proof. exact @tie_encode. Qed.
-Print Assumptions C03_code_tie_api_encode.
